@@ -68,6 +68,15 @@ static void run(Src &s) {
       offender = i;
       break;
     }
+  // the offending file may be a symbolic link whose target does not exist: the rules look at the link itself
+  // (a dangling link that violates nothing is never generated: what a reader does with it is not C16's subject)
+  bool dangling_offender = false;
+  if (offender < cons.size() && s.chance(20)) {
+    dangling_offender = true;
+    cons[offender].file->kind = F_DANGLING;
+    if (r_nolink) viol[offender].insert(ECONF_ERROR_FILE_IS_SYM_LINK);
+    g_case.tag("offender_is_dangling_link");
+  }
   materialise(t, pa, g_scr.dir);
   if (g_root && pa.sfx().empty()) {
     // suffix-less reads consult "." and ".." of every effective drop-in directory as (empty) files;
@@ -212,7 +221,8 @@ static void run(Src &s) {
   bool have2 = false;
   std::vector<Observed> hob2;
   do_read(r2, ob2, have2, hob2);
-  check_accepted(r2, ob2, have2, hob2, "read after econf_reset_security_settings");
+  // (what a reader without restrictions makes of a dangling link is not C16's subject)
+  if (!dangling_offender) check_accepted(r2, ob2, have2, hob2, "read after econf_reset_security_settings");
   cleanup_tree(g_scr.dir);
 }
 
